@@ -32,6 +32,7 @@ type namedTerm struct {
 }
 
 type Session struct {
+	callBindings []Val // bindings of the closure whose contract is being applied (staticCall -> applyContract)
 	mapRanges map[*Frame]map[*ssa.Range]*mapRangeInfo // ghost produced-key sets of map ranges (maprange.go)
 	curOrigin     string   // where the assertions made now come from ("post:update#1", "inv#1", "requires", "at:update#1")
 	assertOrigins []string // per assertion
